@@ -80,7 +80,8 @@ type Params struct {
 	// NoDLP strips the data-loss-protect fields from channel_reestablish.
 	NoDLP bool `json:"no_dlp"`
 	// CapacitySat is the channel capacity (default 10 BTC); GrossA is A's gross
-	// share in satoshi before the opener's fee/anchors (default half); ReserveSat
+	// share in satoshi before the opener's fee/anchors (default half; a negative
+	// value means exactly 0); ReserveSat
 	// is each side's channel reserve (default capacity/100).
 	CapacitySat int64 `json:"capacity_sat,omitempty"`
 	GrossA      int64 `json:"gross_a,omitempty"`
@@ -108,9 +109,42 @@ type Params struct {
 	// in the live-object probe, and wherever the harness calls CheckReestHere)
 	// field by field against the explorer's own derivation: see reest.go.
 	ReestMonitor bool `json:"reest_monitor,omitempty"`
+	// ByzRevocation adds the terminal action `byz>X` wherever the head of X's wire
+	// is a revoke_and_ack: X is handed a lattice of wrong revocations (byz.go).
+	ByzRevocation bool `json:"byz_revocation,omitempty"`
 	// CutOnlyInSync restricts second and later cuts to states where
 	// resynchronisation is still in progress (quick tier of C02/C03).
 	CutOnlyInSync bool `json:"cut_only_in_sync"`
+	// Bounds are optional per-party channel-state bounds (index 0 = the bounds in
+	// A's ChannelConfig, 1 = B's); a zero field keeps the default of chanCfg
+	// (max HTLCs 241, max pending = capacity, min HTLC 0, reserve = ReserveSat).
+	// The defaults never bind; these let a harness put either side's
+	// max_accepted_htlcs / max_htlc_value_in_flight / htlc_minimum / reserve at a
+	// boundary, and make the two sides' bounds differ.
+	Bounds [2]Bounds `json:"bounds,omitempty"`
+}
+
+// Bounds are the optional per-party overrides of Params.Bounds.
+type Bounds struct {
+	MaxHtlcs       uint16 `json:"max_htlcs,omitempty"`
+	MaxPendingMsat uint64 `json:"max_pending_msat,omitempty"`
+	MinHtlcMsat    uint64 `json:"min_htlc_msat,omitempty"`
+	ReserveSat     int64  `json:"reserve_sat,omitempty"`
+}
+
+func (b Bounds) apply(c *channeldb.ChannelConfig) {
+	if b.MaxHtlcs != 0 {
+		c.MaxAcceptedHtlcs = b.MaxHtlcs
+	}
+	if b.MaxPendingMsat != 0 {
+		c.MaxPendingAmount = lnwire.MilliSatoshi(b.MaxPendingMsat)
+	}
+	if b.MinHtlcMsat != 0 {
+		c.MinHTLC = lnwire.MilliSatoshi(b.MinHtlcMsat)
+	}
+	if b.ReserveSat != 0 {
+		c.ChanReserve = btcutil.Amount(b.ReserveSat)
+	}
 }
 
 // Normalize fills in defaults.
@@ -147,7 +181,12 @@ func (p Params) Name() string {
 	for _, i := range p.Script {
 		s = append(s, fmt.Sprintf("%c%d%s", 'A'+i.By, i.Amt, i.Fate[:1]))
 	}
-	return fmt.Sprintf("%s/open%s/dust%d-%d/%s/fees%v/cuts%d", p.Type, o, p.DustA, p.DustB, strings.Join(s, ","), p.Fees, p.MaxCuts)
+	name := fmt.Sprintf("%s/open%s/dust%d-%d/%s/fees%v/cuts%d", p.Type, o, p.DustA, p.DustB, strings.Join(s, ","), p.Fees, p.MaxCuts)
+	// optional knobs appear in the label only when set (default labels unchanged)
+	if p.Bounds != ([2]Bounds{}) {
+		name += fmt.Sprintf("/bounds%v", p.Bounds)
+	}
+	return name
 }
 
 const (
@@ -343,7 +382,12 @@ func New(p Params, report Reporter, stats *Stats) (*World, error) {
 		stats = &Stats{}
 	}
 	w := &World{P: p, ct: ct, report: report, Stats: stats}
-	w.gross = [2]int64{p.GrossA, p.CapacitySat - p.GrossA}
+	// GrossA < 0 stands for "A starts with exactly 0" (0 itself means default).
+	grossA := p.GrossA
+	if grossA < 0 {
+		grossA = 0
+	}
+	w.gross = [2]int64{grossA, p.CapacitySat - grossA}
 	capacitySat := btcutil.Amount(p.CapacitySat)
 	base := os.Getenv("VERIF_SCRATCH")
 	if base == "" {
@@ -355,6 +399,9 @@ func New(p Params, report Reporter, stats *Stats) (*World, error) {
 	keys := [2][]*btcec.PrivateKey{privs(0x21), privs(0x83)}
 	cfgs := [2]channeldb.ChannelConfig{
 		chanCfg(keys[0], p.DustA, csvA, p.CapacitySat, p.ReserveSat), chanCfg(keys[1], p.DustB, csvB, p.CapacitySat, p.ReserveSat),
+	}
+	for i := range cfgs {
+		p.Bounds[i].apply(&cfgs[i])
 	}
 	var (
 		producers [2]*shachain.RevocationProducer
@@ -705,6 +752,7 @@ func (w *World) Enabled() []string {
 			}
 		}
 	}
+	acts = w.byzActs(acts) // no-op unless Params.ByzRevocation
 	if w.P.CrashPoints && w.cuts < w.P.MaxCuts {
 		// A step that performs W>=2 durable writes has W-1 interior crash
 		// points (k=0 and k=W coincide with a cut before/after the step).
@@ -758,7 +806,7 @@ func (w *World) Terminal() {
 // Do performs one action.
 func (w *World) Do(a string) error {
 	kind := ""
-	if a != "cut" && !strings.HasPrefix(a, "crash") && !strings.HasPrefix(a, "probe>") && !strings.HasPrefix(a, "side>") {
+	if a != "cut" && !strings.HasPrefix(a, "crash") && !strings.HasPrefix(a, "probe>") && !strings.HasPrefix(a, "side>") && !strings.HasPrefix(a, "byz>") {
 		kind = w.kindOf(a)
 	}
 	w.hist = append(w.hist, a)
@@ -771,6 +819,8 @@ func (w *World) Do(a string) error {
 		err = w.deliver(int(a[3] - 'A'))
 	case strings.HasPrefix(a, "probe>"):
 		err = w.probeLiveReest(int(a[6] - 'A'))
+	case strings.HasPrefix(a, "byz>"):
+		err = w.byzProbe(int(a[4] - 'A'))
 	case strings.HasPrefix(a, "side>"):
 		err = w.probeSideWriters(int(a[5] - 'A'))
 	case strings.HasPrefix(a, "crash"):
